@@ -255,19 +255,26 @@ def discharge(ob, timeout_ms=None):
         s.add(c)
     s.add(z3.Not(goal))
     cli = None
-    if ob.meta.get('prefer') == 'z3-4.8.12' and os.path.exists('/usr/bin/z3'):
-        # portfolio: the older z3 decides some quantified real-arithmetic obligations much faster (and vice versa);
-        # it runs as a separate process while the API solver works; the first definite answer wins
+    cli_t = int(ob.meta.get('cli_timeout_s') or 90)
+    _CLI = {'z3-4.8.12': ['/usr/bin/z3', '-T:%d' % cli_t], 'cvc5-1.0.3': ['/usr/bin/cvc5', '--tlimit=%d' % (cli_t * 1000)]}
+    cli_name = ob.meta.get('prefer')
+    if _BUDGET.get('deadline') and time.time() > _BUDGET['deadline'] and is_sym(goal):
+        # the contract's time budget is used up: nothing more is attempted (undecided, never a verdict)
+        ob.status, ob.solver, ob.time = 'unknown', 'none (time budget of the contract exhausted)', 0.0
+        return ob
+    if cli_name in _CLI and os.path.exists(_CLI[cli_name][0]):
+        # portfolio: the older z3 (or cvc5) decides some quantified real-arithmetic obligations much faster (and vice
+        # versa); it runs as a separate process while the API solver works; the first definite answer wins
         f = tempfile.NamedTemporaryFile('w', suffix='.smt2', delete=False)
         f.write(_smt2(ob.pc, goal))
         f.close()
-        cli = (subprocess.Popen(['/usr/bin/z3', '-T:90', f.name], stdout=subprocess.PIPE, stderr=subprocess.DEVNULL, text=True), f.name)
+        cli = (subprocess.Popen(_CLI[cli_name] + [f.name], stdout=subprocess.PIPE, stderr=subprocess.DEVNULL, text=True), f.name)
     if cli is None:
         r = s.check()
     else:
         import threading
         proc, fname = cli
-        s.set('timeout', max(timeout_ms, 40000))
+        s.set('timeout', max(timeout_ms, min(40000, cli_t * 1000)))
         box = {}
         th = threading.Thread(target=lambda: box.__setitem__('r', s.check()))
         th.start()
@@ -287,13 +294,13 @@ def discharge(ob, timeout_ms=None):
             if r != z3.unsat and r != z3.sat:
                 if cli_res is None:
                     try:
-                        out, _ = proc.communicate(timeout=95)
+                        out, _ = proc.communicate(timeout=cli_t + 5)
                     except subprocess.TimeoutExpired:
                         proc.kill()
                         out = ''
                     cli_res = (out.strip().splitlines() or ['unknown'])[0].strip()
                 if cli_res == 'unsat':
-                    ob.status, ob.solver, ob.time = 'unsat', 'z3-4.8.12', time.time() - t0
+                    ob.status, ob.solver, ob.time = 'unsat', cli_name, time.time() - t0
                     return ob
         finally:
             if proc.poll() is None:
@@ -378,6 +385,9 @@ def _nonlinear(f):
     return False
 
 
+_BUDGET = {'deadline': None}
+
+
 def sat_check(pc, timeout_ms=5000):
     s = z3.Solver()
     s.set('timeout', timeout_ms)
@@ -447,6 +457,10 @@ def verify(contract, max_paths=None, only_prefix=None, path_index=0):
     (only_prefix: execute exactly that path -- used to spread the paths of one contract over worker processes)"""
     t0 = time.time()
     res = JobResult(contract)
+    if not _EXPLORE_ONLY['on']:
+        # per-contract time budget (a broken tree must not keep the check busy for hours: what is left is undecided)
+        b = getattr(contract, 'budget_s', None) or (420 if tier() != 'thorough' else 3600)
+        _BUDGET['deadline'] = t0 + b
     rel, qual = contract.key()
     try:
         mod = frontend.load(rel)
@@ -472,7 +486,12 @@ def verify(contract, max_paths=None, only_prefix=None, path_index=0):
         if res.paths >= max_paths:
             res.undecided.append('path budget %d exceeded' % max_paths)
             break
+        if not _EXPLORE_ONLY['on'] and _BUDGET.get('deadline') and time.time() > _BUDGET['deadline']:
+            res.undecided.append('time budget of the contract exhausted with %d paths still to explore' % (len(work) + 1))
+            break
         ctx = Ctx(prefix, solver_timeout_ms=z3_timeout_ms())
+        ctx.prefer = getattr(contract, 'prefer_solver', None)
+        ctx.cli_timeout_s = getattr(contract, 'cli_timeout_s', None)
         I = Interp(ctx, contracts=summaries, loop_specs=loopspecs, target=contract.key())
         outcome = None
         inp = None
@@ -623,6 +642,8 @@ def verify(contract, max_paths=None, only_prefix=None, path_index=0):
                     ob.meta['small'] = sm
                 if getattr(contract, 'prefer_solver', None):
                     ob.meta['prefer'] = contract.prefer_solver
+                if getattr(contract, 'cli_timeout_s', None):
+                    ob.meta['cli_timeout_s'] = contract.cli_timeout_s
                 discharge(ob)
                 ob.meta.pop('small', None)
             d = dict(name=oname, kind=ob.kind, status=ob.status, solver=ob.solver,
@@ -642,13 +663,18 @@ def verify(contract, max_paths=None, only_prefix=None, path_index=0):
                     except Exception as e:
                         conc = None
                         d['concretize_error'] = str(e)
+                elif ob.model is None and inp is not None and hasattr(contract, 'concretize_without_model'):
+                    # refuted by a command-line solver (no model through the API): the contract's canonical inputs
+                    conc = contract.concretize_without_model(inp)
                 d['model'] = jsonable(conc) if conc is not None else None
                 d['smt_model'] = str(ob.model)[:2000] if ob.model is not None else None
                 res.violations.append(d)
             elif ob.status in ('unknown', 'disagree'):
                 res.undecided.append('obligation %s: solver %s' % (oname, ob.status))
             res.obligations.append(d)
-    if not res.obligations and not res.undecided and not res.errors:
+    if not res.obligations and not res.undecided and not res.errors and only_prefix is None:
+        # (one path of a contract split over worker processes may be infeasible; the checker flags a contract whose
+        # merged result has no obligation)
         res.errors.append('zero obligations generated')
     if res.canary != 'sat' and not res.errors and not res.undecided:
         res.errors.append('vacuous contract: requires is %s' % res.canary)
